@@ -9,7 +9,7 @@ QUICK, THOROUGH = "quick", "thorough"
 def jt_behaviours(tier, tag="jt", maxlen=None):
     """Exhaustive JsonText model check + behaviour emission (shared by several properties)."""
     d = wdir("beh")
-    ml = maxlen or (7 if tier == QUICK else 9)
+    ml = maxlen or (8 if tier == QUICK else 10)
     path = os.path.join(d, "jt_%d.ndjson" % ml)
     stats_p = path + ".stats"
     src = [os.path.join(vlib.TLA, f) for f in ("JsonText.tla", "MC_JsonText.tla", "Numbers.tla")]
@@ -53,6 +53,8 @@ def jt_replay(prop, tier, seed, res, exe=None):
     beh, st = jt_behaviours(tier)
     exe = exe or build_harness()
     out = fresh(prop, "replay")
+    for f in __import__("glob").glob(os.path.join(vlib.WORK, "replay", prop + "-*.json")):
+        os.remove(f)
     summ = run_replay_with_crash_isolation(exe, ["jt-replay", "--beh", beh, "--tables", tables(), "--seed", seed,
                                            "--tier", tier, "--out", out, "--prop", prop], out, res, "jt-replay")
     for m in summ["mismatches"]:
@@ -69,7 +71,7 @@ def jt_replay(prop, tier, seed, res, exe=None):
     return summ
 
 
-def jt_record_validate(prop, tier, seed, res, n, exe=None):
+def jt_record_validate(prop, tier, seed, res, n, exe=None, checks=("verdict", "panic")):
     exe = exe or build_harness()
     beh, st = jt_behaviours(tier)
     out = fresh(prop, "record")
@@ -84,7 +86,7 @@ def jt_record_validate(prop, tier, seed, res, n, exe=None):
     summ = json.loads(o.strip().splitlines()[-1])
     files = [os.path.join(out, "trace.%d.ndjson" % i) for i in range(shards)]
     t0 = time.time()
-    accepted, rejects = tlc_trace("Trace_JsonText", files)
+    accepted, rejects = tlc_trace("Trace_JsonText", files, consts={"Checks": "{%s}" % ", ".join('"%s"' % c for c in checks)})
     log("trace validation: %d lines accepted, %d rejects, %.1fs" % (accepted, len(rejects), time.time() - t0))
     for r in rejects:
         ev = r["event"] or {}
